@@ -42,12 +42,17 @@ Proof. exact char_byte_roundtrip_lemma. Qed.
 Print Assumptions char_byte_roundtrip.
 
 (* ---------- string.format (FormatModel.v: fmt_dir false = C's printf, fmt_dir true = gopher-lua) ---------- *)
-From GL Require Import Str.FormatModel Str.FormatFacts.
+From GL Require Import Str.FormatModel Str.FormatFacts Str.FormatRoundtrip.
 
 Theorem format_d_roundtrip : forall go z, in_int64 z = true ->
   exists s, format go [37; 100] [zarg z] = FOk s /\ parse_int s = z.
 Proof. exact format_d_roundtrip_lemma. Qed.
 Print Assumptions format_d_roundtrip.
+
+(* ... and under ANY flags, width and precision, once the blanks of the field are stripped *)
+Theorem format_d_roundtrip_all : forall go sp z, parse_int (strip (fmt_signed go sp z)) = z.
+Proof. exact format_d_roundtrip_all_lemma. Qed.
+Print Assumptions format_d_roundtrip_all.
 
 Theorem format_digits_value : forall base upper n, 2 <= base <= 16 -> 0 <= n ->
   of_digits base (digits base upper n) = n.
@@ -126,7 +131,7 @@ Proof. exact format_impl_neq_spec_witness. Qed.
 Print Assumptions format_impl_eq_spec_refuted.
 
 (* ---------- math library (MathWModel.v) ---------- *)
-From GL Require Import Str.MathWModel Str.MathWFacts.
+From GL Require Import Str.MathWModel Str.MathWFacts Str.MathWOrder.
 
 Theorem max_spec : forall num ltb (ok : num -> Prop),
   (forall a, ok a -> ltb a a = false) ->
@@ -147,6 +152,20 @@ Theorem min_spec : forall num ltb (ok : num -> Prop),
               forall a, In a (x :: r) -> le num ltb res a.
 Proof. exact min_spec_lemma. Qed.
 Print Assumptions min_spec.
+
+(* the same for the model that is run against the code (Go's < on the dyadic view of float64 is a
+   strict weak order on non-NaN values: proved, no hypothesis left) *)
+Theorem max_spec_run : forall x r, Forall not_nan (x :: r) ->
+  exists res, run_math MMax (x :: r) = MOk [res] /\ In res (x :: r) /\
+              forall a, In a (x :: r) -> num_ltb res a = false.
+Proof. exact max_spec_num_lemma. Qed.
+Print Assumptions max_spec_run.
+
+Theorem min_spec_run : forall x r, Forall not_nan (x :: r) ->
+  exists res, run_math MMin (x :: r) = MOk [res] /\ In res (x :: r) /\
+              forall a, In a (x :: r) -> num_ltb a res = false.
+Proof. exact min_spec_num_lemma. Qed.
+Print Assumptions min_spec_run.
 
 Theorem random_in_range : forall num (toInt : num -> Z) ofInt draw,
   (forall k r, draw k = Some r -> 0 <= r < k) ->
